@@ -437,7 +437,16 @@ def structure_probe(nat):
             return True, "(display %s) prints %r (expected %r)" % (tok, text, want)
         if res.strip() != "OK " + tok:
             return True, "(display %s) prints %r, which reads back as %s" % (tok, text, res[:60])
-    return False, "native print / read-back probes of %d list and vector shapes agree" % len(SHAPES)
+    # a vector (empty or not) as the tail of an improper list, and an empty list / empty vector as elements
+    for tok, want in [("D 1 I 1 VI 1 I 2", "(1 . #(2))"), ("D 2 I 1 I 2 VI 0", "(1 2 . #())"), ("L 2 VI 0 N", "(#() ())"), ("D 1 VI 0 VI 0", "(#() . #())"),
+                      ("VI 2 D 1 I 1 VI 1 I 2 N", "#((1 . #(2)) ())")]:
+        text, res = native_roundtrip(nat, tok)
+        if text != want:
+            return True, "(display %s) prints %r (expected %r)" % (tok, text, want)
+        nrm = lambda s_: s_.replace("VI", "V").replace("L 0", "N").split()
+        if nrm(res) != ["OK"] + nrm(tok):
+            return True, "(display %s) prints %r, which reads back as %s" % (tok, text, res[:60])
+    return False, "native print / read-back probes of %d list and vector shapes agree" % (len(SHAPES) + 12)
 
 
 def spec_structure(chk):
